@@ -746,8 +746,11 @@ def main():
         n2 = len(op_alphabet(True)) ** 2
         tasks += [("enum", True, 2, lo, min(n2, lo + 3000), run.seed) for lo in range(0, n2, 3000)]
         n3 = len(op_alphabet(False)) ** 3
-        tasks += [("enum", False, 3, lo, min(n3, lo + 3000), run.seed) for lo in range(0, n3, 3000)]
-        nr, length = run.n(0, 20000), 60
+        # a sampled eighth of the length-3 space (a different part per seed); the complete space costs about 20 CPU-hours
+        rr = random.Random(run.seed)
+        for lo in rr.sample(range(0, n3, 3000), max(1, (n3 // 3000) // 8)):
+            tasks.append(("enum", False, 3, lo, min(n3, lo + 3000), run.seed))
+        nr, length = run.n(0, 6000), 60
     else:
         n2 = len(op_alphabet(False)) ** 2
         tasks += [("enum", False, 2, lo, min(n2, lo + 600), run.seed) for lo in range(0, n2, 600)]
@@ -764,7 +767,7 @@ def main():
     random.Random(run.seed).shuffle(tasks)
     run_pool(run, worker, tasks, soft_timeout=900)
     run.exhaustive = False
-    run.extra["exhaustive_note"] = "length-2 (quick: reduced alphabet; thorough: full alphabet) and thorough length-3 sequence spaces are enumerated completely; random histories are sampled"
+    run.extra["exhaustive_note"] = "the length-2 sequence space (quick: reduced alphabet; thorough: full alphabet) is enumerated completely; the length-3 space (reduced alphabet) and random histories are sampled"
     run.require("operations", 5000)
     run.require("reads", 50000)
     run.require("copy_rechecks", 500)
